@@ -248,7 +248,15 @@ func runC08(e *Env) error {
 		bits := []int{4, 12, 26, 40, 52}[rg.Intn(5)]
 		a := rg.Int63n(1<<uint(bits)) - (1 << uint(bits-1))
 		b := rg.Int63n(1<<uint(bits)) - (1 << uint(bits-1))
-		op := pick(rg, []string{"+", "-", "*", "%", "==", "<", ">=", "!="})
+		if i%3 == 0 {
+			// neighbours at large magnitude: comparisons are exact up to 2^53, not "to 14 digits"
+			a = int64(1)<<uint(44+rg.Intn(9)) + rg.Int63n(1000) - 500
+			if rg.Intn(2) == 0 {
+				a = -a
+			}
+			b = a + int64(rg.Intn(3)-1)
+		}
+		op := pick(rg, []string{"+", "-", "*", "%", "==", "<", ">=", "!=", "==", "!=", "in", "not in"})
 		A, B := big.NewInt(a), big.NewInt(b)
 		var want string
 		lim := new(big.Int).Lsh(big.NewInt(1), 53)
@@ -273,6 +281,10 @@ func runC08(e *Env) error {
 			want = fmt.Sprint(a >= b)
 		case "!=":
 			want = fmt.Sprint(a != b)
+		case "in":
+			want = fmt.Sprint(a == b)
+		case "not in":
+			want = fmt.Sprint(a != b)
 		}
 		if want == "" {
 			if new(big.Int).Abs(res).Cmp(lim) > 0 {
@@ -281,6 +293,9 @@ func runC08(e *Env) error {
 			want = res.String()
 		}
 		src := fmt.Sprintf("x %s y", op)
+		if op == "in" || op == "not in" {
+			src = fmt.Sprintf("x %s [y, 'q']", op)
+		}
 		im := runImpl(exprCase(src, map[string]any{"x": int(a), "y": int(b)}))
 		r.Seen(fmt.Sprintf("e:%d%s%d", a, op, b), true)
 		if im.Class != "" || im.Out != want {
